@@ -20,6 +20,7 @@ import Np.Model.Print
 import Np.Model.PrintText
 import Np.Model.DivArr
 import Np.Model.ExprPow
+import Np.Model.DType
 /-! line-protocol driver: one JSON case per line on stdin, the model's answer per line on stdout -/
 open Lean Np Np.Shape
 
@@ -144,6 +145,14 @@ def showPolyAt (s : List Nat) (p : Poly (Vec CRat (size s))) : Json := showArr â
 def sortFlags (j : Json) : Bool Ã— Bool :=
   let opts := (j.getObjVal? "opts").toOption.getD (Json.mkObj [])
   (jBoolD opts "sort_graded" true, jBoolD opts "sort_reverse" false)
+
+def dtNames : List (String Ã— Np.DT.DType) :=
+  [("bool", .bool), ("int8", .i8), ("int16", .i16), ("int32", .i32), ("int64", .i64), ("uint8", .u8), ("uint16", .u16),
+   ("uint32", .u32), ("uint64", .u64), ("float16", .f16), ("float32", .f32), ("float64", .f64), ("complex64", .c64),
+   ("complex128", .c128)]
+def dtOf (s : String) : E Np.DT.DType :=
+  match dtNames.find? (Â·.1 == s) with | some p => pure p.2 | none => throw s!"unknown dtype {s}"
+def dtName (d : Np.DT.DType) : String := ((dtNames.find? (Â·.2 == d)).map (Â·.1)).getD "?"
 
 def runCase (j : Json) : E Json := do
   let op â† (â† j.getObjVal? "op").getStr?
@@ -453,6 +462,14 @@ def runCase (j : Json) : E Json := do
           | some l => Json.arr (l.map fun t => Json.arr #[toJson t.1, toJson t.2]).toArray
           | none => Json.null)]
     pure (Json.mkObj [("status", "ok"), ("kind", "printint"), ("elements", Json.arr elems.toArray)])
+  | "inferdtype" =>
+    -- C12 / C15: dtype of polynomial_from_attributes without a dtype request (cols: [dtype name, all-zero?])
+    let cols â† (â† jList (â† j.getObjVal? "cols")).mapM fun c => do
+      match â† jList c with
+      | [d, .bool z] => pure ((â† dtOf (â† d.getStr?)), z)
+      | _ => throw "bad col"
+    pure (Json.mkObj [("status", "ok"), ("kind", "dtype"),
+      ("value", match Np.DT.inferDtype cols with | some d => toJson (dtName d) | none => Json.null)])
   | _ => throw s!"bad-op {op}"
 
 def step (line : String) : String :=
